@@ -13,8 +13,8 @@ from .. import report
 from ..machines import paragraphs as PF
 from ..models import odfws
 
-PATTERNS = ["a", "ab", "[ab]", "a+", "a|d", "^a", "b$", r"\s+", " ", "zz", "c", "b "]
-REPL = ["", "X", "X Y", "  ", "a\tb\nc", " Z", "Z "]
+PATTERNS = ["a", "ab", "[ab]", "a+", "a|d", "^a", "b$", r"\s+", " ", "zz", "c", "b ", "(a)(b)?", r"(?i)A"]
+REPL = ["", "X", "X Y", "  ", "a\tb\nc", " Z", "Z ", r"<\1>", r"\g<0>\g<0>"]
 TEXTNS = odfws.TEXT
 FORMATTED_HOLDERS = {"{%s}p" % TEXTNS, "{%s}h" % TEXTNS, "{%s}span" % TEXTNS}
 
@@ -148,6 +148,8 @@ def work(items):
         if etree.tostring(p._Element__element) != pre_xml:
             rec("Element.replace(count)", "count", "pure", "unchanged", "changed", "counting-modified-element", {"pattern": pat})
         for new in REPL:
+            if "\\1" in new and rx.groups == 0:
+                continue  # a reference to a group the pattern does not have: re.error by definition
             for formatted in (False, True):
                 nev += 1
                 p = PF.build(items)
